@@ -12,7 +12,7 @@ import (
 
 func init() {
 	register("C16", propMeta{
-		Explanation: "E-PAIR + E-OWN + E-CONST on proxy/lib. O-1 slot pairing: tokens.get() is called only from Start and every path from it reaches runSession; over runSession's CFG every path from entry to a return carries exactly one release event, where a release event is a call of tokens.ret() or the hand-off edge 'case <-dataChan' of the final select (path enumeration with event counts, sensitive to repeated tests of one condition). The hand-off is verified separately: dataChan is closed only inside the OnDataChannel callback of makePeerConnectionFromOffer, which starts the handler goroutine on every path that closes it; the handler passed by runSession resolves to SnowflakeProxy.datachannelHandler, which releases exactly once (one deferred tokens.ret() in its entry block, no other). O-2 counter and semaphore move together: get adds +1 and sends, ret adds -1 and receives, both channel operations behind capacity != 0, ch = make(chan struct{}, capacity), no other access to ch or clients except the atomic load in count. O-3 reported load: the clients argument of the poll request is int((tokens.count()/8)*8) and is recomputed in the same loop iteration as the poll. O-4: on the exits after the peer connection was created the connection is closed before the slot is released. A missing or doubled release is a path in the source on which capacity is lost or exceeded. Added after the third seeding round: O-5 the relay dial uses a dialer with a non-zero HandshakeTimeout (websocket.DefaultDialer or a literal that sets it), so a silent relay cannot hold the slot forever. Added after the fourth seeding round: O-6 each copying goroutine of copyLoop signals the done channel (close or send, directly or through Once.Do) on every return, so that datachannelHandler's deferred release runs whatever io.Copy returned. Added after the fifth seeding round: O-6 the data channel's OnClose callback closes the pipe writer on every path; Start re-creates the token pool from its Capacity before any slot is taken; websocketconn.Close writes its Close frame under a deadline read from the clock; the hand-off channel is identified by resolving what runSession awaits to its make (in runSession or returned by makePeerConnectionFromOffer). Added after the sixth seeding round and the mutation audit: O-7 runSession creates its data-channel timer behind sendAnswer; O-9 E-CLEANUP on proxy/lib; O-10/C20 lock pairing of proxy/lib, including locks acquired through a helper and never released. O-11 the same failure-branch rule for proxy/lib.",
+		Explanation: "E-PAIR + E-OWN + E-CONST on proxy/lib. O-1 slot pairing: tokens.get() is called only from Start and every path from it reaches runSession; over runSession's CFG every path from entry to a return carries exactly one release event, where a release event is a call of tokens.ret() or the hand-off edge 'case <-dataChan' of the final select (path enumeration with event counts, sensitive to repeated tests of one condition). The hand-off is verified separately: dataChan is closed only inside the OnDataChannel callback of makePeerConnectionFromOffer, which starts the handler goroutine on every path that closes it; the handler passed by runSession resolves to SnowflakeProxy.datachannelHandler, which releases exactly once (one deferred tokens.ret() in its entry block, no other). O-2 counter and semaphore move together: get adds +1 and sends, ret adds -1 and receives, both channel operations behind capacity != 0, ch = make(chan struct{}, capacity), no other access to ch or clients except the atomic load in count. O-3 reported load: the clients argument of the poll request is int((tokens.count()/8)*8) and is recomputed in the same loop iteration as the poll. O-4: on the exits after the peer connection was created the connection is closed before the slot is released. A missing or doubled release is a path in the source on which capacity is lost or exceeded. Added after the third seeding round: O-5 the relay dial uses a dialer with a non-zero HandshakeTimeout (websocket.DefaultDialer or a literal that sets it), so a silent relay cannot hold the slot forever. Added after the fourth seeding round: O-6 each copying goroutine of copyLoop signals the done channel (close or send, directly or through Once.Do) on every return, so that datachannelHandler's deferred release runs whatever io.Copy returned. Added after the fifth seeding round: O-6 the data channel's OnClose callback closes the pipe writer on every path; Start re-creates the token pool from its Capacity before any slot is taken; websocketconn.Close writes its Close frame under a deadline read from the clock; the hand-off channel is identified by resolving what runSession awaits to its make (in runSession or returned by makePeerConnectionFromOffer). Added after the sixth seeding round and the mutation audit: O-7 runSession creates its data-channel timer behind sendAnswer; O-9 E-CLEANUP on proxy/lib; O-10/C20 lock pairing of proxy/lib, including locks acquired through a helper and never released. O-11 the same failure-branch rule for proxy/lib. Added after the seventh seeding round: the path count of O-1 takes a branch on a boolean constant for decided, and a deferred release guarded by a constant flag is judged on the helper-inlined view, where it is copied to every return (undefer.go).",
 		NotDecided:  "the race 'timeout fires while the data channel opens' (needs a happens-before argument about pion callbacks), a client opening a second data channel, sessions run concurrently by embedding applications.",
 		Assumptions: []string{"pion invokes OnDataChannel at most once per peer connection in the analysed scenarios", "log.Fatalf paths are process exit and carry no obligation"},
 	}, runC16)
